@@ -283,14 +283,19 @@ where
   let dx = (bx - ax) / (divs as f64);
   let dy = (by - ay) / (divs as f64);
 
-  let result: Complex<f64> = Steps(ay, by, steps)
+  // the abscissae are computed from the node index, so that the integrand is
+  // sampled at the same points however the work is split among threads
+  let xs = Steps(ax, bx, steps);
+  let ys = Steps(ay, by, steps);
+
+  let result: Complex<f64> = (0..steps)
     .into_par_iter()
-    .enumerate()
-    .map(|(ny, y)| {
-      let sy: Complex<f64> = Steps(ax, bx, steps)
+    .map(|ny| {
+      let y = ys.value(ny);
+      let sy: Complex<f64> = (0..steps)
         .into_par_iter()
-        .enumerate()
-        .map(|(nx, x)| {
+        .map(|nx| {
+          let x = xs.value(nx);
           let a_n = get_simpson_weight(nx, divs);
           func(x, y).into() * a_n
         })
